@@ -358,6 +358,10 @@ func c17E2E(r *vReport, pat string) {
 		{"on:\n  push:\n    branches: [" + q + "]\n    paths:\n      - " + q + "\n" + tail, []epos{{3, 16, refE, "ref"}, {5, 9, pathE, "path"}}},
 		{"on:\n  pull_request:\n    paths: [" + q + "]\n  push:\n    branches: [" + q + "]\n    tags-ignore:\n      - " + q + "\n" + tail, []epos{{3, 13, pathE, "path"}, {5, 16, refE, "ref"}, {7, 9, refE, "ref"}}},
 		{"on:\n  push:\n    tags: [" + q + "]\n  pull_request:\n    paths-ignore: [" + q + "]\n    branches-ignore: [" + q + "]\n" + tail, []epos{{3, 12, refE, "ref"}, {5, 20, pathE, "path"}, {6, 23, refE, "ref"}}},
+		// lists with further elements: an empty, null or non-scalar element (reported by the parser)
+		// before the pattern, valid patterns around it
+		{"on:\n  push:\n    branches: ['', " + q + "]\n    tags-ignore:\n      - ok\n      -\n      - " + q + "\n    paths: [[x], " + q + "]\n" + tail, []epos{{3, 20, refE, "ref"}, {7, 9, refE, "ref"}, {8, 18, pathE, "path"}}},
+		{"on:\n  pull_request:\n    branches-ignore: [main, \"\", 'rel/**', " + q + ", v1]\n    paths-ignore:\n      - docs/**\n      - {a: b}\n      - " + q + "\n      - src/**\n" + tail, []epos{{3, 43, refE, "ref"}, {7, 9, pathE, "path"}}},
 		// the other events that take ref / path filters
 		{"on:\n  merge_group:\n    branches: [" + q + "]\n  pull_request_target:\n    paths: [" + q + "]\n    branches-ignore:\n      - " + q + "\n" + tail, []epos{{3, 16, refE, "ref"}, {5, 13, pathE, "path"}, {7, 9, refE, "ref"}}},
 		{"on:\n  workflow_run:\n    workflows: [w]\n    branches-ignore: [" + q + "]\n  merge_group:\n    branches-ignore:\n      - " + q + "\n  pull_request_target:\n    paths-ignore: [" + q + "]\n    branches: [" + q + "]\n" + tail, []epos{{4, 23, refE, "ref"}, {7, 9, refE, "ref"}, {9, 20, pathE, "path"}, {10, 16, refE, "ref"}}},
@@ -436,7 +440,7 @@ func TestVerifC17(t *testing.T) {
 	r.Bounds["max_length"] = n
 	r.Bounds["alphabet"] = string(c17Alphabet)
 	r.Bounds["e2e_max_length"] = 3
-	r.Extra["rule"] = "all strings of length <= n over the 19-symbol alphabet, ValidateRefGlob and ValidatePathGlob each compared with the reference validator (accept/reject), ref=>path implication, column oracle; all strings <= 3 additionally through Linter.Lint in 5 layouts (the same string under ref and path keys of one, two and three events, both orders; push, pull_request, pull_request_target, merge_group, workflow_run); class = (validator, reference verdict, reference reason); non-trivial = invalid by the reference"
+	r.Extra["rule"] = "all strings of length <= n over the 19-symbol alphabet, ValidateRefGlob and ValidatePathGlob each compared with the reference validator (accept/reject), ref=>path implication, column oracle; all strings <= 3 additionally through Linter.Lint in 7 layouts (the same string under ref and path keys of one, two and three events, both orders; lists with empty / null / non-scalar and valid elements around the pattern; push, pull_request, pull_request_target, merge_group, workflow_run); class = (validator, reference verdict, reference reason); non-trivial = invalid by the reference"
 	r.Extra["assumptions"] = []string{"characters outside the alphabet are represented by a, b (ordinary), space/~ (ref-forbidden), \\x01 and TAB (control characters below and next to the line breaks), é (non-ASCII)", "appendix B don't-care classes are not compared"}
 
 	if raw := vReplayInput(); raw != nil {
